@@ -222,15 +222,13 @@ class CallGraph(object):
                                     yacc_attrs.add(t.attr)
                                 if full in ('ply.lex.lex',):
                                     lex_attrs.add(t.attr)
-        if yacc_attrs and lex_attrs:
-            return yacc_attrs, lex_attrs
         # the ply objects reach the attribute through other names (a table of built engines, a tuple unpacked into self.lex, self.yacc):
         # follow the value through the assignments of the function, position by position for tuples
         for m, q, f in model.all_functions():
             s = sa.self_name(f)
             kinds = {}          # local name -> 'yacc' | 'lex' | ('tuple', [kinds])
 
-            def kind_of(e):
+            def kind_of(e, m=m, depth=0):
                 if isinstance(e, ast.Call):
                     r = model.resolve_attr_chain(m, e.func) if isinstance(e.func, (ast.Name, ast.Attribute)) else None
                     if r and r[0] == 'extattr':
@@ -239,6 +237,18 @@ class CallGraph(object):
                             return 'yacc'
                         if full == 'ply.lex.lex':
                             return 'lex'
+                    if r and r[0] == 'func' and depth < 2 and isinstance(r[2], ast.FunctionDef):
+                        # a helper of the package that builds the ply object:  def build_tables(grammar, options): return yacc.yacc(...)
+                        ks = set()
+                        for rn in walk_no_defs(r[2]):
+                            if isinstance(rn, ast.Return) and rn.value is not None:
+                                v_ = rn.value
+                                if isinstance(v_, ast.Name):
+                                    v2 = sa.resolve_local(r[2], v_)
+                                    v_ = v2 if v2 is not None else v_
+                                ks.add(kind_of(v_, r[1], depth + 1) if isinstance(v_, ast.Call) else None)
+                        if len(ks) == 1 and None not in ks and not isinstance(list(ks)[0], tuple):
+                            return list(ks)[0]
                     return None
                 if isinstance(e, ast.Tuple):
                     ks = [kind_of(x) for x in e.elts]
